@@ -116,7 +116,8 @@ impl Sched {
 #[derive(Clone, Debug, PartialEq, Eq, Hash)]
 pub struct Scen {
     /// 0 inline resource, 1 stand-off plain-text resource, 2 stand-off .json resource,
-    /// 3 inline dataset, 4 stand-off dataset; resources first
+    /// 3 inline dataset, 4 stand-off dataset, 5 stand-off dataset whose file cannot be written;
+    /// resources first
     pub mem: Vec<u8>,
     pub chg: Vec<bool>,
     /// (kind, member, variant)
@@ -127,15 +128,15 @@ fn is_resource(k: u8) -> bool {
     k <= 2
 }
 fn standoff(k: u8) -> bool {
-    k == 1 || k == 2 || k == 4
+    k == 1 || k == 2 || k == 4 || k == 5
 }
 
 impl Scen {
     fn from_sx(x: &Sx) -> Scen {
         Scen {
-            mem: x.nth(0).list().iter().map(|v| v.int().clamp(0, 4) as u8).collect(),
+            mem: x.nth(0).list().iter().map(|v| v.int().clamp(0, 5) as u8).collect(),
             chg: x.nth(1).list().iter().map(|v| v.int() != 0).collect(),
-            ops: x.nth(2).list().iter().map(|o| (o.nth(0).int().clamp(0, 6) as u8, o.nth(1).int().max(0) as usize, o.nth(2).int().clamp(0, 9) as u8)).collect(),
+            ops: x.nth(2).list().iter().map(|o| (o.nth(0).int().clamp(0, 7) as u8, o.nth(1).int().max(0) as usize, o.nth(2).int().clamp(0, 9) as u8)).collect(),
         }
     }
     fn to_sx_free(&self) -> Sx {
@@ -169,7 +170,7 @@ impl Scen {
             && self.mem.len() <= 6
             && !self.ops.is_empty()
             && self.ops.len() <= 4
-            && self.ops.iter().all(|(k, i, _)| *k <= 1 || *k == 6 || *i < self.mem.len())
+            && self.ops.iter().all(|(k, i, _)| *k <= 1 || *k >= 6 || *i < self.mem.len())
             && (0..self.mem.len()).all(|i| !self.chg[i] || standoff(self.mem[i]))
     }
 }
@@ -202,6 +203,8 @@ fn member_id(i: usize) -> String {
 fn member_file(i: usize, k: u8) -> String {
     if k == 1 {
         format!("m{}.txt", i)
+    } else if k == 5 {
+        format!("sub{}/m{}.json", i, i)
     } else {
         format!("m{}.json", i)
     }
@@ -230,7 +233,11 @@ impl Ctx {
     fn build(&self, sc: &Scen) -> Result<AnnotationStore, String> {
         if let Ok(rd) = std::fs::read_dir(&self.dir) {
             for e in rd.flatten() {
-                let _ = std::fs::remove_file(e.path());
+                if e.path().is_dir() {
+                    let _ = std::fs::remove_dir_all(e.path());
+                } else {
+                    let _ = std::fs::remove_file(e.path());
+                }
             }
         }
         let e = |x: StamError| format!("{:?}", x);
@@ -239,8 +246,13 @@ impl Ctx {
             match *k {
                 1 => w(&member_file(i, 1), format!("Hello plain text {}", i))?,
                 2 => w(&member_file(i, 2), format!("{{\"@type\":\"TextResource\",\"@id\":\"m{}\",\"text\":\"Hello json text {}\"}}", i, i))?,
-                4 => w(
-                    &member_file(i, 4),
+                4 | 5 => w(
+                    &{
+                        if *k == 5 {
+                            std::fs::create_dir_all(self.dir.join(format!("sub{}", i))).map_err(|x| x.to_string())?;
+                        }
+                        member_file(i, *k)
+                    },
                     format!(
                         "{{\"@type\":\"AnnotationDataSet\",\"@id\":\"m{}\",\"keys\":[{{\"@type\":\"DataKey\",\"@id\":\"k\"}}],\"data\":[{{\"@type\":\"AnnotationData\",\"@id\":\"D{}\",\"key\":\"k\",\"value\":{{\"@type\":\"String\",\"value\":\"v\"}}}}]}}",
                         i, i
@@ -274,7 +286,7 @@ impl Ctx {
                     store.add_dataset(AnnotationDataSetBuilder::new().with_id(id).with_key_value_id("k", "v", format!("D{}", i))).map_err(e)?;
                 }
                 _ => {
-                    store.add_dataset(AnnotationDataSetBuilder::new().with_filename(member_file(i, 4))).map_err(e)?;
+                    store.add_dataset(AnnotationDataSetBuilder::new().with_filename(member_file(i, *k))).map_err(e)?;
                 }
             }
             if is_resource(*k) && first_res.is_none() {
@@ -314,6 +326,12 @@ impl Ctx {
                 }
             }
         }
+        // the directory of an unwritable stand-off file disappears once the store is loaded
+        for (i, k) in sc.mem.iter().enumerate() {
+            if *k == 5 {
+                std::fs::remove_dir_all(self.dir.join(format!("sub{}", i))).map_err(|x| x.to_string())?;
+            }
+        }
         Ok(store)
     }
 
@@ -347,7 +365,7 @@ impl Ctx {
             .iter()
             .enumerate()
             .map(|(i, k)| {
-                if !standoff(*k) {
+                if !standoff(*k) || *k == 5 {
                     return 0;
                 }
                 let content = std::fs::read_to_string(self.dir.join(member_file(i, *k))).unwrap_or_default();
@@ -633,12 +651,14 @@ fn run_op(store: &AnnotationStore, sc: &Scen, op: (u8, usize, u8)) -> Got {
             let _ = std::fs::remove_file(&path);
             got
         }
-        5 => {
+        5 | 7 => {
             // two calls one after the other on this thread
-            let first = run_op(store, sc, (2, i, variant));
+            let first = if kind == 5 { run_op(store, sc, (2, i, variant)) } else { store_op(store) };
             let second = store_op(store);
             let mut tokens = first.tokens.clone();
+            tokens.push(-7);
             tokens.extend(second.tokens.iter());
+            tokens.push(-7);
             Got { tokens, text: format!("{}\n----\n{}", first.text, second.text) }
         }
         _ => {
@@ -804,10 +824,27 @@ pub fn generate(out: &mut Out, tier: &str, seed: u64) {
                 }
                 let sc = Scen { mem: mem.clone(), chg: chg.clone(), ops: vec![first, *y] };
                 out.count_n("scenarios_two_threads", 1);
-                let e = explore(&ctx, out, &sc, if thorough { 1_500 } else { 150 }, "two_threads_all_schedules");
+                let e = explore(&ctx, out, &sc, if thorough { 1_500 } else { 100 }, "two_threads_all_schedules");
                 if !e.complete {
                     out.count_n("scenarios_capped", 1);
-                    sample(&ctx, out, &sc, &mut rng, if thorough { 100 } else { 40 }, "two_threads_random_schedule");
+                    sample(&ctx, out, &sc, &mut rng, if thorough { 100 } else { 25 }, "two_threads_random_schedule");
+                }
+            }
+        }
+    }
+
+    // A4. a stand-off file that cannot be written: the call fails, every time
+    for (mem, chg) in [(vec![5u8], vec![true]), (vec![5], vec![false]), (vec![1, 5], vec![true, true]), (vec![4, 5], vec![true, true]), (vec![5, 4], vec![true, false])] {
+        let b = mem.iter().position(|k| *k == 5).unwrap();
+        let pool: Vec<(u8, usize, u8)> = vec![(1, 0, 0), (7, 0, 0), (2, b, 0), (3, b, 0), (5, b, 0), (0, 0, 0)];
+        for x in 0..pool.len() {
+            for y in x..pool.len() {
+                let sc = Scen { mem: mem.clone(), chg: chg.clone(), ops: vec![pool[x], pool[y]] };
+                out.count_n("scenarios_failing_write", 1);
+                let e = explore(&ctx, out, &sc, if thorough { 1_500 } else { 80 }, "two_threads_all_schedules");
+                if !e.complete {
+                    out.count_n("scenarios_capped", 1);
+                    sample(&ctx, out, &sc, &mut rng, if thorough { 100 } else { 20 }, "two_threads_random_schedule");
                 }
             }
         }
@@ -862,7 +899,7 @@ pub fn generate(out: &mut Out, tier: &str, seed: u64) {
                             sample(&ctx, out, &sc, &mut rng, 300, "three_threads_random_schedule");
                         }
                     } else {
-                        sample(&ctx, out, &sc, &mut rng, 30, "three_threads_random_schedule");
+                        sample(&ctx, out, &sc, &mut rng, 20, "three_threads_random_schedule");
                     }
                 }
             }
@@ -870,7 +907,7 @@ pub fn generate(out: &mut Out, tier: &str, seed: u64) {
     }
 
     // C. larger stores, random calls, random schedules
-    let nrand = if thorough { 2000 } else { 300 };
+    let nrand = if thorough { 2000 } else { 200 };
     for _ in 0..nrand {
         let nres = rng.below(3);
         let nset = rng.below(3);
@@ -920,6 +957,6 @@ pub fn generate(out: &mut Out, tier: &str, seed: u64) {
     }
 }
 
-pub const RULE: &str = "Deterministic scheduler over real threads holding &AnnotationStore (blocked at the stam_verif yield points before every access to the serialisation mode and the changed flags; one thread runs at a time); every execution rebuilds the store and its stand-off files under .cache/work/c20/. A (exhaustive, both tiers): for every store with one member (inline / plain-text stand-off / .json stand-off resource, inline / stand-off dataset; changed flag clear and set: 8 stores) every unordered pair of calls out of {store.to_json_string, ToJson::to_json_string(member, store config), inherent member.to_json_string(), ToJson::to_json_string(member, unrelated Config), pure readers: annotation iteration, find_text + reverse lookups, query, .parallel() through rayon}: ALL schedules, enumerated depth-first by re-execution (the generator fails if a pair exceeds the cap). A3: two calls on one thread (ToJson::to_json_string(member) followed by store.to_json_string), and store.to_json_file into a file of the thread's own (read back), each next to every other call on the one-member stores: all schedules up to 150 (thorough 1500), 40 (100) random ones beyond. A2: stores with one resource and one dataset (5 kind combinations x all flag combinations): all schedules up to 800 (thorough 4000), 100 random ones beyond, for pairs of {store serialisation, ToJson(dataset)}; 10 (thorough 100) random schedules for the other pairs. B: three threads on one-member stores: 30 random schedules per triple (quick), all schedules up to 1000 + 300 random beyond (thorough). C: random stores of up to 2+2 members with 2-3 random calls under random schedules. D: free runs - 2-4 threads started together WITHOUT the scheduler (real pre-emption) on stores of 1-5 members. Per thread: the member forms in the string it obtained and equality of the whole string with the string the same call returns alone on an identical store, compared with the specified solo result and with the model's prediction for the executed schedule; per run: whether every stand-off file still holds its member's content. Non-trivial: a stand-off member exists and at least two threads were scheduled twice or more. distinct = distinct (scenario, schedule) lines.";
+pub const RULE: &str = "Deterministic scheduler over real threads holding &AnnotationStore (blocked at the stam_verif yield points before every access to the serialisation mode and the changed flags; one thread runs at a time); every execution rebuilds the store and its stand-off files under .cache/work/c20/. A (exhaustive, both tiers): for every store with one member (inline / plain-text stand-off / .json stand-off resource, inline / stand-off dataset; changed flag clear and set: 8 stores) every unordered pair of calls out of {store.to_json_string, ToJson::to_json_string(member, store config), inherent member.to_json_string(), ToJson::to_json_string(member, unrelated Config), pure readers: annotation iteration, find_text + reverse lookups, query, .parallel() through rayon}: ALL schedules, enumerated depth-first by re-execution (the generator fails if a pair exceeds the cap). A3: two calls on one thread (ToJson::to_json_string(member) followed by store.to_json_string), and store.to_json_file into a file of the thread's own (read back), each next to every other call on the one-member stores: all schedules up to 100 (thorough 1500), 25 (100) random ones beyond. A4: stores with a stand-off dataset whose file cannot be written (5 stores), pairs out of {store.to_json_string, store.to_json_string twice on one thread, the member calls, a pure reader}: all schedules up to 80 (thorough 1500), 20 (100) random beyond; every call that has to rewrite the file must return Err every time. A2: stores with one resource and one dataset (5 kind combinations x all flag combinations): all schedules up to 800 (thorough 4000), 100 random ones beyond, for pairs of {store serialisation, ToJson(dataset)}; 10 (thorough 100) random schedules for the other pairs. B: three threads on one-member stores: 20 random schedules per triple (quick), all schedules up to 1000 + 300 random beyond (thorough). C: random stores of up to 2+2 members with 2-3 random calls under random schedules. D: free runs - 2-4 threads started together WITHOUT the scheduler (real pre-emption) on stores of 1-5 members. Per thread: the member forms in the string it obtained and equality of the whole string with the string the same call returns alone on an identical store, compared with the specified solo result and with the model's prediction for the executed schedule; per run: whether every stand-off file still holds its member's content. Non-trivial: a stand-off member exists and at least two threads were scheduled twice or more. distinct = distinct (scenario, schedule) lines.";
 
 pub const EXHAUSTIVE: bool = true;
